@@ -122,6 +122,16 @@ func c18Keys() (map[string]principal.Signer, []string, error) {
 		}
 		keys[fmt.Sprintf("wrapped%d", i)] = w
 	}
+	// a principal whose DID needs percent-encoding (did:web with a port), section I
+	if wp, err := did.Parse("did:web:localhost%3A8080"); err == nil {
+		if w, err := psigner.Wrap(keys["ed1"], wp); err == nil {
+			keys["webport"] = w
+		} else {
+			return nil, nil, err
+		}
+	} else {
+		return nil, nil, err
+	}
 	return keys, names, nil
 }
 
@@ -386,7 +396,7 @@ func c18Run() ([]c18Rec, error) {
 	for i, ds := range c18WrappedDIDs {
 		k := fmt.Sprintf("wrapped%d", i)
 		ws := keys[k]
-		ad, _ := did.Parse(c18DIDs[(i*3+1)%len(c18DIDs)])
+		ad, _ := did.Parse(c18DIDs[(i*3+1)%c18DIDsBase])
 		d, err := delegation.Delegate(ws, ad, []ucan.Capability[ucan.CaveatBuilder]{
 			ucan.NewCapability[ucan.CaveatBuilder]("store/add", ds, nodeNb{c18Caveats[i]()})}, delegation.WithExpiration(1900000000), delegation.WithNonce(k))
 		if err != nil {
@@ -488,15 +498,86 @@ func c18Run() ([]c18Rec, error) {
 			return nil, err
 		}
 	}
+	// I. principals whose DID needs percent-encoding (did:web with a port): issuer (a wrapped key), audience and resource
+	{
+		ws := keys["webport"]
+		ad, _ := did.Parse("did:web:example.com%3A3000:user:alice")
+		d, err := delegation.Delegate(ws, ad, []ucan.Capability[ucan.CaveatBuilder]{
+			ucan.NewCapability[ucan.CaveatBuilder]("store/add", "did:web:localhost%3A8080", nodeNb{c18Caveats[0]()})}, delegation.WithExpiration(1900000000), delegation.WithNonce("web-port"))
+		if err != nil {
+			return nil, fmt.Errorf("program tok-web-port: %v", err)
+		}
+		if err := tokRec("tok-web-port", "webport", d); err != nil {
+			return nil, err
+		}
+	}
+	// J. re-issuing with a proof that was READ BACK FROM STORAGE (Archive -> Extract, Format -> Parse): the new token's
+	// archive and string are the recorded ones, as when the proof is still the in-process object
+	for vi, via := range []string{"archive", "string"} {
+		src := tokens[5+vi]
+		var stored delegation.Delegation
+		if via == "archive" {
+			ab, err := io.ReadAll(src.Archive())
+			if err != nil {
+				return nil, err
+			}
+			stored, err = delegation.Extract(ab)
+			if err != nil {
+				return nil, fmt.Errorf("program reissue-%s: extract: %v", via, err)
+			}
+		} else {
+			fs, err := delegation.Format(src)
+			if err != nil {
+				return nil, err
+			}
+			stored, err = delegation.Parse(fs)
+			if err != nil {
+				return nil, fmt.Errorf("program reissue-%s: parse: %v", via, err)
+			}
+		}
+		d, err := delegation.Delegate(keys["ed1"], keys["ed2"].DID(), []ucan.Capability[ucan.CaveatBuilder]{
+			ucan.NewCapability[ucan.CaveatBuilder]("store/add", keys["ed0"].DID().String(), nodeNb{c18Caveats[1]()})},
+			delegation.WithExpiration(1900000000), delegation.WithNonce("reissue-"+via), delegation.WithProof(delegation.FromDelegation(stored)))
+		if err != nil {
+			return nil, fmt.Errorf("program reissue-%s: %v", via, err)
+		}
+		if err := tokRec("reissue-stored-proof-"+via, "ed1", d); err != nil {
+			return nil, err
+		}
+		// ... and a second generation: the re-issued token stored and used as a proof again
+		ab, err := io.ReadAll(d.Archive())
+		if err != nil {
+			return nil, err
+		}
+		stored2, err := delegation.Extract(ab)
+		if err != nil {
+			return nil, fmt.Errorf("program reissue2-%s: extract: %v", via, err)
+		}
+		d2, err := delegation.Delegate(keys["ed2"], keys["ed3"].DID(), []ucan.Capability[ucan.CaveatBuilder]{
+			ucan.NewCapability[ucan.CaveatBuilder]("store/add", keys["ed0"].DID().String(), nodeNb{c18Caveats[1]()})},
+			delegation.WithExpiration(1900000000), delegation.WithNonce("reissue2-"+via), delegation.WithProof(delegation.FromDelegation(stored2)))
+		if err != nil {
+			return nil, fmt.Errorf("program reissue2-%s: %v", via, err)
+		}
+		if err := tokRec("reissue2-stored-proof-"+via, "ed2", d2); err != nil {
+			return nil, err
+		}
+	}
 	return recs, nil
 }
 
 var c18WrappedDIDs = []string{"did:dns:golden.example", "did:ion:EiClkZMDxPKqC9c", "did:mailto:example.com:alice"}
 
+// the first c18DIDsBase entries are the ones the recorded section-F tokens pick their audiences from
+const c18DIDsBase = 17
+
 var c18DIDs = []string{"did:web:example.com", "did:web:example.com:user:alice", "did:mailto:example.com:alice", "did:dns:example.com", "did:dht:i9xkp8ddcbcg8jwq54ox699wuzxyifsqx4jru45zodqu453ksz6y",
 	"did:ion:EiClkZMDxPKqC9c-umQfTkR8vvZ9JPhl_xLDI9Nfk38w5w", "did:indy:sovrin:WRfXPg8dantKVubE3HX8pw", "did:iota:0xe4edef97da1257e83cbeb49159cfdd2da6ac971ac447f233f8439cf29376ebfe",
 	"did:plc:ewvi7nxzyoun6zhxrhs64oiz", "did:pkh:eip155:1:0xb9c5714089478a327f09197987f16f9e5d936e8a", "did:d:x", "did:i:x", "did:did:x", "did:x:did:key:y", "did:ethr:0xb9c5714089478a327f09197987f16f9e5d936e8a",
-	"did:key:z6MkhaXgBZDvotDkL5257faiztiGiC2QtKLGpbnnEGta2doK", "did:key:z4MXj1wBzi9jUstyPMS4jQqB6KdJaiatPkAtVtGc6bQEQEEsKTic4G7Rou3iBf9vPmT5dbkm9qsZsuVNjq8HCuW1w24nhBFGkRE4cd2Uf2tfrB3N7h4mnyPp1BF3ZttHTYv3DLUPi1zMdkULiow3M1GfXkoC6DoxDUm1jmN6GBj22SjVsr6dxezRVQc7aj9TxE7JLbMH1wh5X3kA58H3DFW8rnYMakFGbca5CB2Jf6CnGQZmL7o5uJAdTwXfy2iiiyPxXEGerMhHwhjTA1mKYobyk2CpeEcmvynADfNZ5MBvcCS7m3XkFCMNUYBS9NQ3fze6vMSUPsNa6GVYmKx2x6JrdEjCk3qRMMmyjnjCMfR4pXbRMZa3i"}
+	"did:key:z6MkhaXgBZDvotDkL5257faiztiGiC2QtKLGpbnnEGta2doK", "did:key:z4MXj1wBzi9jUstyPMS4jQqB6KdJaiatPkAtVtGc6bQEQEEsKTic4G7Rou3iBf9vPmT5dbkm9qsZsuVNjq8HCuW1w24nhBFGkRE4cd2Uf2tfrB3N7h4mnyPp1BF3ZttHTYv3DLUPi1zMdkULiow3M1GfXkoC6DoxDUm1jmN6GBj22SjVsr6dxezRVQc7aj9TxE7JLbMH1wh5X3kA58H3DFW8rnYMakFGbca5CB2Jf6CnGQZmL7o5uJAdTwXfy2iiiyPxXEGerMhHwhjTA1mKYobyk2CpeEcmvynADfNZ5MBvcCS7m3XkFCMNUYBS9NQ3fze6vMSUPsNa6GVYmKx2x6JrdEjCk3qRMMmyjnjCMfR4pXbRMZa3i",
+	// percent-encoded and punctuated method-specific ids (did:web with a port, with a path; RFC 3986 unreserved marks)
+	"did:web:localhost%3A8080", "did:web:example.com%3A3000:user:alice", "did:web:w3c-ccg.github.io:user:alice", "did:example:a.b-c_d", "did:web:xn--caf-dma.example",
+	"did:example:123456789abcdefghi%20x", "did:tz:tz1YwA1FwpgLtc1G8DKbbZ6e6PTb1dQMRn5x"}
 
 func outcomeBytesOf(root []byte) ([]byte, error) {
 	// re-encode the outcome of a receipt root block (what the issuer signed)
